@@ -47,6 +47,7 @@ import json
 import struct
 
 from harness import c03_ref as R
+from harness import c03_probe as P
 from harness import valcodec as vc
 try:                                    # the shared type-directed generator of C01/C02 (second source of bodies)
     from harness import gen_values as gv
@@ -594,11 +595,36 @@ def make_class(message, cls, maxlen):
     return type(base.__name__, (base,), {'_maxMsgLen': maxlen})
 
 
-def tables_snapshot(message):
-    """The class tables the model treats as constants."""
-    return (tuple((k, tuple(map(tuple, getattr(message, k)._headerAttrs))) for k in CLSNAME.values()),
-            tuple(sorted(message._hcode.items())), tuple(sorted((c, k.__name__) for c, k in message._mtype.items())),
-            message._headerFormat)
+def get_next(message):
+    """The serial counter, wherever it lives (harness/c03_probe.serial_counter); None when it cannot be located."""
+    loc = P.serial_counter(message)
+    return getattr(loc[0], loc[1]) if loc else None
+
+
+def set_next(message, value):
+    loc = P.serial_counter(message)
+    if loc and value is not None:
+        setattr(loc[0], loc[1], value)
+        return True
+    return False
+
+
+def tables_snapshot(message, cheap=True):
+    """The class tables the model treats as constants.  Fast path: the private names; when one of them is gone the
+    tables are found through public behaviour (harness/c03_probe.py) - only at stream boundaries (`cheap=False`)."""
+    try:
+        return (tuple((k, tuple(map(tuple, getattr(message, k)._headerAttrs))) for k in CLSNAME.values()),
+                tuple(sorted(message._hcode.items())), tuple(sorted((c, k.__name__) for c, k in message._mtype.items())),
+                message._headerFormat)
+    except AttributeError:
+        if cheap:
+            return None
+        from txdbus import marshal
+        hs = P.header_signature(message, marshal)
+        fb = P.field_by_code(message, marshal, hs)
+        return (tuple((k, tuple(P.header_attrs(message, marshal, hs, k, fb))) for k in CLSNAME.values()),
+                tuple(sorted(fb.items())),
+                tuple(sorted((c, k.__name__) for c, k in P.class_by_type(message, marshal, hs).items())), hs)
 
 
 TABLES = {}
@@ -607,7 +633,13 @@ TABLES = {}
 def check_tables(ctx, message, inp):
     """The model (and the generated Gen/Message.lean) assume that constructing and parsing never change the class
     tables; a change is reported as a broken correspondence obligation with the call after which it was seen."""
-    snap = tables_snapshot(message)
+    try:
+        snap = tables_snapshot(message, cheap=isinstance(inp, dict) and 'cls' in inp)
+    except Exception as e:                    # the harness's own reach into internals failed: never a finding
+        ctx.note('tables-immutable: class tables could not be read (%s: %s)' % (type(e).__name__, e))
+        return
+    if snap is None:
+        return
     base = TABLES.setdefault(id(message), snap)
     if snap != base:
         TABLES[id(message)] = snap
@@ -621,14 +653,14 @@ _LIMIT_PROBE = {}
 def limit_honoured(message):
     """Does a subclass's lower `_maxMsgLen` take effect (what tests/test_message.py::test_too_long checks)?"""
     if id(message) not in _LIMIT_PROBE:
-        saved = message.DBusMessage._nextSerial
+        saved = get_next(message)
         try:
             type('E', (message.ErrorMessage,), {'_maxMsgLen': 1})('foo.bar', 5)
             _LIMIT_PROBE[id(message)] = False
         except Exception:
             _LIMIT_PROBE[id(message)] = True
         finally:
-            message.DBusMessage._nextSerial = saved
+            set_next(message, saved)
     return _LIMIT_PROBE[id(message)]
 
 
@@ -645,7 +677,7 @@ def construct_real(message, x, poke=True):
     body = case_body(x)
     oob = None if x['oob'] is None else [900 + i for i in range(x['oob'])]
     if poke:
-        message.DBusMessage._nextSerial = x['next']
+        set_next(message, x['next'])
     try:
         if x['cls'] == 'call':
             m = K(x['path'], x['member'], interface=x['interface'], destination=x['destination'],
@@ -659,9 +691,10 @@ def construct_real(message, x, poke=True):
             m = K(x['path'], x['member'], x['interface'], destination=x['destination'],
                   signature=x['signature'], body=body)
     except Exception as e:
-        return {'ok': False, 'err': exc_name(e), 'next': message.DBusMessage._nextSerial}, None, oob
-    obs = {'ok': True, 'serial': m.serial, 'next': message.DBusMessage._nextSerial,
-           'raw': hexs(m.rawMessage), 'hdr': hexs(m.rawHeader), 'pad': hexs(m.rawPadding), 'body': hexs(m.rawBody),
+        return {'ok': False, 'err': exc_name(e), 'next': get_next(message)}, None, oob
+    obs = {'ok': True, 'serial': m.serial, 'next': get_next(message),
+           'raw': hexs(m.rawMessage), 'hdr': hexs(P.raw_parts(m)[0]), 'pad': hexs(P.raw_parts(m)[1]),
+           'body': hexs(P.raw_parts(m)[2]),
            'ufds': ca(getattr(m, 'unix_fds', None)), 'wf': wf_bit(m.rawMessage, oob)}
     return obs, m, oob
 
@@ -703,7 +736,8 @@ def parse_real(message, raw, fds):
     except Exception as e:
         return {'ok': False, 'err': exc_name(e)}, None
     v = view_real(m)
-    v.update(ok=True, hdr=len(m.rawHeader), pad=hexs(m.rawPadding), body=hexs(m.rawBody))
+    hp = P.raw_parts(m, raw)
+    v.update(ok=True, hdr=len(hp[0]), pad=hexs(hp[1]), body=hexs(hp[2]))
     return v, m
 
 
@@ -956,7 +990,8 @@ def check_wellformed(ctx, x, obs, m, oob_after, nfds):
 
     def bad(key, what, observed=None, expected=None):
         ctx.violation(key, what, inp=inp, observed=observed, expected=expected)
-    if raw != m.rawHeader + m.rawPadding + m.rawBody:
+    has_parts = all(hasattr(m, a) for a in ('rawHeader', 'rawPadding', 'rawBody'))     # rawPadding is not a documented name
+    if has_parts and raw != m.rawHeader + m.rawPadding + m.rawBody:
         bad('raw-parts-differ', 'rawMessage != rawHeader + rawPadding + rawBody', obs['raw'][:400])
         return
     try:
@@ -978,7 +1013,7 @@ def check_wellformed(ctx, x, obs, m, oob_after, nfds):
     if not (isinstance(m.serial, int) and wf['serial'] == m.serial and 1 <= m.serial < 2 ** 32):
         bad('serial-not-fresh', 'serial attribute %r, serial in the bytes %d: not one non-zero uint32' % (m.serial, wf['serial']),
             wf['serial'], 'the same non-zero value < 2^32')
-    if wf['header_end'] != len(m.rawHeader) or wf['padding'] != m.rawPadding or wf['body'] != m.rawBody:
+    if has_parts and (wf['header_end'] != len(m.rawHeader) or wf['padding'] != m.rawPadding or wf['body'] != m.rawBody):
         bad('raw-parts-differ', 'rawHeader/rawPadding/rawBody are not the header, padding and body of rawMessage')
     want = x_fields(x, nfds)
     got = {}
@@ -1382,12 +1417,14 @@ def body_stage_error(message, raw, fds):
 
 
 def forwarding_api(message):
-    """The bus's forwarding call `_marshal(False, rawBody=...)` is a private API: only exercised when it has that shape."""
-    import inspect
-    try:
-        return 'rawBody' in inspect.signature(message.DBusMessage._marshal).parameters
-    except (TypeError, ValueError):
-        return False
+    """The bus's forwarding call (`_marshal(False, rawBody=...)` today) is a private API: located by its shape
+    (harness/c03_probe.forward_call), exercised only when found."""
+    return P.forward_call(message)
+
+
+def forward(message, p, body):
+    name, p_serial, p_body = P.forward_call(message)
+    getattr(p, name)(**{p_serial: False, p_body: body})
 
 
 def run_remarshal(ctx, message, items):
@@ -1396,7 +1433,7 @@ def run_remarshal(ctx, message, items):
     the header field types of every delivery); C03 speaks of constructed messages, so nothing here is a C03 violation."""
     if not forwarding_api(message):
         ctx.case('remarshal-parsed', sample=None, n=1)
-        ctx.note('DBusMessage._marshal has no rawBody parameter: forwarding step not exercised')
+        ctx.note('no re-marshal entry point (new-serial flag + raw body) found on DBusMessage: forwarding step not exercised')
         return
     senders = [':1.%d' % ctx.rng.randrange(1, 500) for _ in items]
     out = ctx.model(['remarshal %s %s' % (parse_line(raw, fds)[len('parse '):], opt_s(snd))
@@ -1406,7 +1443,7 @@ def run_remarshal(ctx, message, items):
             p = message.parseMessage(raw, fds)
             p.sender = snd
             p.endian = raw[0]
-            p._marshal(False, rawBody=p.rawBody)
+            forward(message, p, P.raw_parts(p, raw)[2])
             impl = {'ok': True, 'raw': hexs(p.rawMessage)}
         except Exception as e:
             impl = {'ok': False, 'err': exc_name(e)}
@@ -1450,17 +1487,18 @@ def run_serial_sequence(ctx, marshal, message, n):
     constructed message gets a serial that no earlier message of the run got, >= 1, < 2^32."""
     rng = ctx.rng
     start = rng.choice([1, 1, 250, 65530, 2 ** 32 - 40])
-    message.DBusMessage._nextSerial = start
+    set_next(message, start)
     for name in CLSNAME.values():          # a fresh process has one counter, on the base class
-        if '_nextSerial' in getattr(message, name).__dict__:
-            delattr(getattr(message, name), '_nextSerial')
+        loc = P.serial_counter(message)
+        if loc and loc[1] in getattr(message, name).__dict__:
+            delattr(getattr(message, name), loc[1])
     seen = {}
     fwd = forwarding_api(message)
     for k in range(n):
         r = rng.random()
         if r < 0.25 and seen:
             # something arrives: a message whose serial is below, at or above our counter
-            other = rng.choice([1, start, message.DBusMessage._nextSerial, message.DBusMessage._nextSerial + 1,
+            other = rng.choice([1, start, get_next(message) or 1, (get_next(message) or 1) + 1,
                                 rng.choice(list(seen)), rng.randint(1, 2 ** 32 - 1)])
             other = min(max(other, 1), 2 ** 32 - 1)
             raw, fds = R.ref_message(rng.choice([1, 2, 3, 4]), rng.choice([0, 1]), other,
@@ -1471,7 +1509,7 @@ def run_serial_sequence(ctx, marshal, message, n):
                 if fwd and rng.random() < 0.5:
                     p.sender = ':1.7'
                     p.endian = raw[0]
-                    p._marshal(False, rawBody=p.rawBody)
+                    forward(message, p, P.raw_parts(p, raw)[2])
             except Exception:
                 pass
             ctx.stat('serial-sequence:parsed-in-between')
@@ -1509,11 +1547,11 @@ def run_real_limit(ctx, marshal, message):
             return message.ErrorMessage('a.' + member, 1, signature='s', body=body)
         return message.SignalMessage('/a', member, 'a.b', signature='s', body=body)
     for cls in CLASSES:
-        message.DBusMessage._nextSerial = 77
+        set_next(message, 77)
         member, probe = 'm', None
         for k in range(1, 9):                       # a header that needs 7 bytes of padding
             probe = make(cls, 'm' * k, ['x'])
-            if len(probe.rawPadding) == 7:
+            if len(P.raw_parts(probe)[1]) == 7:
                 member = 'm' * k
                 break
         overhead = len(probe.rawMessage) - 1
@@ -1595,16 +1633,16 @@ def replay_case(ctx, marshal, message, data):
 
 def replay(ctx, data):
     from txdbus import marshal, message
-    saved = message.DBusMessage._nextSerial
+    saved = get_next(message)
     try:
         replay_case(ctx, marshal, message, data['input'] if 'input' in data else data)
     finally:
-        message.DBusMessage._nextSerial = saved
+        set_next(message, saved)
 
 
 def run(ctx):
     from txdbus import marshal, message
-    saved = message.DBusMessage._nextSerial
+    saved = get_next(message)
     TABLES.pop(id(message), None)
     check_tables(ctx, message, None)
     ctx.case('tables-immutable', sample=None, n=1)
@@ -1633,4 +1671,4 @@ def run(ctx):
         if ctx.tier == 'thorough' and not ctx.widen:
             run_real_limit(ctx, marshal, message)
     finally:
-        message.DBusMessage._nextSerial = saved
+        set_next(message, saved)
